@@ -1,7 +1,7 @@
 (* Props/C01.v — quantize() returns a well-formed model or raises. *)
 From VF Require Import Base.Prelude Gen.Enums Gen.Configs Gen.Scopes Model.Recipe Model.Check
      Model.Graph Gen.InstChecks Model.Insts Model.Perform Model.Plan Model.Pipeline Spec.WF
-     Proofs.ListFacts Proofs.PerformStep Proofs.PerformInv Proofs.InstsSane.
+     Proofs.ListFacts Proofs.PerformStep Proofs.PerformInv Proofs.InstsSane Proofs.RangeInv.
 
 (* Local heart of C01, for ALL subgraphs, tensors, consumer lists, parameters:
    one insertion (QUANTIZE or DEQUANTIZE op + new tensor + rewiring + graph
@@ -96,6 +96,35 @@ Proof.
   eapply insts_of_params_sane. exact Ei.
 Qed.
 Print Assumptions C01_pipeline_returns_wellformed_subgraphs_or_raises.
+
+(* ... with ALL index clauses of the property: [wf_model] (Spec/WF.v) = every
+   subgraph well formed AND every op's opcode index within the opcode table AND
+   every tensor's buffer index within the buffer table AND every signature
+   referring to an existing subgraph with all its input/output entries naming
+   existing tensors.  (Proofs/RangeInv.v: the shared opcode table only grows,
+   buffer count is constant, new tensors use buffer 0, signature entries are
+   re-pointed to the new tensor.) *)
+Theorem C01_transform_graph_preserves_wf_model :
+  forall m tis m',
+    wf_model m ->
+    (forall ti i, In ti tis -> In i (ti_insts ti) -> sane m (ti_sg ti) i) ->
+    transform_graph m tis = Ok m' -> wf_model m'.
+Proof. exact transform_graph_wf_model. Qed.
+Print Assumptions C01_transform_graph_preserves_wf_model.
+
+Theorem C01_pipeline_returns_wf_model_or_raises :
+  forall mk_cls matches rules scope_id m scopes stats m' plans,
+    wf_model m ->
+    pipeline_cls mk_cls matches rules scope_id m scopes stats = Ok (m', plans) -> wf_model m'.
+Proof.
+  intros mk_cls matches rules scope_id m scopes stats m' plans Hwf H. unfold pipeline_cls in H.
+  destruct (plan_checked_cls mk_cls matches rules scope_id m scopes stats) as [r|]; cbn [bind] in H; [|discriminate].
+  match type of H with (tis <- ?x ;; _) = _ => destruct x as [tis|] eqn:Ei end; cbn [bind] in H; [|discriminate].
+  destruct (transform_graph m tis) as [m2|] eqn:Et; cbn [bind] in H; [|discriminate].
+  inversion H; subst. eapply transform_graph_wf_model; [exact Hwf| |exact Et].
+  eapply insts_of_params_sane. exact Ei.
+Qed.
+Print Assumptions C01_pipeline_returns_wf_model_or_raises.
 
 (* Non-vacuity: a concrete well-formed two-op graph whose middle tensor is
    both consumed and exported; inserting a DEQUANTIZE for the graph output and
